@@ -285,8 +285,12 @@ def run(run: Run) -> None:
     depth = 3 if quick else 4
     us: list = [("bfs", depth, [op]) for op in alphabet]
     us.append(("bfs", 0, []))
-    seqs = [[("a", "neg2x3"), ("b", "int"), ("a", "int")], [("c d", "tensor"), ("c d", "neg2x3"), ("e", "nan1x1")], [("x", "int"), ("y", "big3k")]]
-    us.append(("full", seqs[:2] if quick else seqs))
+    seqs = [[("a", "neg2x3"), ("b", "int"), ("a", "int")], [("c d", "tensor"), ("c d", "neg2x3"), ("e", "nan1x1")],
+            # names that share the stem before their last dot (plot files are named with_suffix), timestamp-like names
+            [("greedy", "int"), ("greedy.v2", "neg2x3"), ("exp.1", "int"), ("exp.2", "tensor"), ("2026-10-01T12:00:00.123456", "int"),
+             ("2026-10-01T12:00:00.654321", "neg2x3")],
+            [("x", "int"), ("y", "big3k")]]
+    us.append(("full", seqs[:3] if quick else seqs))
     cmds = []
     for cmd in ("solve", "greedy", "best_states"):
         for n, generator, limit in ((3, "noisy_factory", 2), (3, "xos", 3), (4, "factory", 1), (4, "graph_random", 2)):
